@@ -8,3 +8,6 @@ import Univers.Vers.ContainsMain
 import Univers.Vers.DenoteCongr
 import Univers.Driver
 import Univers.Props.C04
+import Univers.Vers.SortThm
+import Univers.Vers.ValidateThm
+import Univers.Props.C07
